@@ -1,0 +1,51 @@
+//go:build verif
+
+package rueidis
+
+import "github.com/redis/rueidis/internal/cmds"
+
+// Add-only exports for the verification harness (family csc: batched cache reads, multi-key helpers,
+// client-side-caching end-to-end observer). Nothing here changes behaviour.
+
+// VerifCscMsg exposes the fields of a RedisMessage that callers can observe through the accessors.
+func VerifCscMsg(m RedisMessage) (typ byte, str string, intlen int64, vals []RedisMessage, cacheHit bool, pxat int64) {
+	return m.typ, m.string(), m.intlen, m.values(), m.attrs == cacheMark, m.getExpireAt()
+}
+
+// VerifCscResult splits a RedisResult into its message and its non-redis error.
+func VerifCscResult(r RedisResult) (RedisMessage, error) { return r.val, r.err }
+
+func verifCscArgv(m map[uint16]Completed) map[uint16][]string {
+	out := make(map[uint16][]string, len(m))
+	for k, c := range m {
+		out[k] = append([]string(nil), c.Commands()...)
+	}
+	return out
+}
+
+// Slot grouping builders of internal/cmds (MGets, MDels, MSets, MSetNXs, JsonMGets, JsonMSets).
+func VerifCscMGets(keys []string) map[uint16][]string   { return verifCscArgv(cmds.MGets(keys)) }
+func VerifCscMDels(keys []string) map[uint16][]string   { return verifCscArgv(cmds.MDels(keys)) }
+func VerifCscMSets(kvs map[string]string) map[uint16][]string {
+	return verifCscArgv(cmds.MSets(kvs))
+}
+func VerifCscMSetNXs(kvs map[string]string) map[uint16][]string {
+	return verifCscArgv(cmds.MSetNXs(kvs))
+}
+func VerifCscJsonMGets(keys []string, path string) map[uint16][]string {
+	return verifCscArgv(cmds.JsonMGets(keys, path))
+}
+func VerifCscJsonMSets(kvs map[string]string, path string) map[uint16][]string {
+	return verifCscArgv(cmds.JsonMSets(kvs, path))
+}
+
+// VerifCscSlot is the key slot function used by the builders.
+func VerifCscSlot(key string) uint16 { return cmds.Slot(key) }
+
+// VerifCscCacheKey is cmds.CacheKey.
+func VerifCscCacheKey(c Cacheable) (string, string) { return cmds.CacheKey(c) }
+
+// VerifCscArrayToKV is helper.go arrayToKV.
+func VerifCscArrayToKV(arr []RedisMessage, keys []string) map[string]RedisMessage {
+	return arrayToKV(make(map[string]RedisMessage, len(keys)), arr, keys)
+}
